@@ -719,12 +719,13 @@ theorem disabled_sound (Γ : Env) (ρ : Store) (callee : Callee) (binds : List (
   have hv := ((modsOk_iff Γ callee binds w m).mp hm).2.1 e hd
   exact plain_sound Γ ρ hρ (.base .bool) (by simp [Ty.wf]) e he hv (by simp [holeFree, refHoleFree]; split <;> simp [noHole])
 
-/-- PARTIAL.  Intended statement (what the run time relies on: every other
-stage of the pipeline waits for a preflight stage, so a preflight call must not
-depend on any other call): "no binding of an accepted preflight call contains a
-reference to another call".  FALSE – see `preflight_nested_ref_witness`.
-Proved: what `Modifiers.compile` does enforce – no binding IS such a reference,
-and the callee has no outputs. -/
+/-- PARTIAL.  Intended compile-time statement: "no binding of an accepted
+preflight call contains a reference to another call".  FALSE of the compiler –
+see `preflight_nested_ref_witness` – and it cannot be made true: the pinned
+suite contains such a call.  Proved: what `Modifiers.compile` does enforce – no
+binding IS such a reference, and the callee has no outputs.  The run time no
+longer relies on the intended statement (repair 937256c: the stages a preflight
+stage depends on do not wait for it; checked in Tier A every run). -/
 theorem preflight_isolated_partial (Γ : Env) (callee : Callee) (binds : List (Bytes × Bind))
     (w : Option Wild) (m : Mods) (hm : modsOk Γ callee binds w m = true)
     (hp : effective m.kwPreflight (usingVal 1 m.usings) = true) :
@@ -745,11 +746,11 @@ theorem preflight_isolated_partial (Γ : Env) (callee : Callee) (binds : List (B
     have := h7.1.2
     simp [hw, wildIsCallRef, isCallRef] at this
 
-/-- negative witness of the intended preflight statement: `call preflight
-PRE(xs = [PROD.a])` is accepted (the reference sits inside an array literal).
-Replayed on the real compiler every run (known finding
-C07:preflight-nested-call-ref; observed at run time: mrp dies with a stack
-overflow in the prenode cycle). -/
+/-- negative witness of the intended compile-time preflight statement: `call
+preflight PRE(xs = [PROD.a])` is accepted (the reference sits inside an array
+literal).  Replayed on the real code every run: accepted by the compiler, and
+the pipestance runs PROD, then PRE, then everything else, to completion (before
+repair 937256c mrp died with a stack overflow in the prenode cycle). -/
 theorem preflight_nested_ref_witness :
     let prod : CallSig := { name := cP, mode := .single, src := none, outs := .cons ka (.base .int) .nil }
     let Γ : Env := { self := [(ka, .base .int)], calls := [(cP, prod)] }
@@ -938,5 +939,110 @@ example :
     let inner : Pipeline := { name := kx, ins := [(ka, .base .int)], outs := .cons ko tW .nil, calls := [{ id := cP, callee := stP, binds := [], wild := none, mods := noMods }], ret := [(ko, .plain (.call cP [ko]))], retWild := none, retain := [.call cP [ko, kb]] }
     let outer : Pipeline := { name := km, ins := [], outs := .cons kb (.arr (.arr (.base .file))) .nil, calls := [{ id := kx, callee := inner.callee, binds := [(ka, .split (.arr (.cons (.int 1) (.cons (.int 2) .nil))))], wild := none, mods := noMods }], ret := [(kb, .plain (.call kx [ko, kb]))], retWild := none, retain := [] }
     validPipeline inner = true ∧ validPipeline outer = true := by decide
+
+/-! ### 10. unused inputs and the top-level call statement -/
+
+/-- with the `UnusedInputError` check: accepted exactly when accepted without
+it and every input is used by some call binding, modifier or return binding -/
+theorem validPipelineU_iff (p : Pipeline) :
+    validPipelineU p = true ↔ validPipeline p = true ∧ unusedInputs p = [] := by
+  simp only [validPipelineU, checkPipelineU, validPipeline, checkPipeline]
+  cases hc : checkCalls { self := p.ins, calls := [] } p.calls with
+  | none => simp
+  | some Γ =>
+    cases hu : unusedInputs p with
+    | nil =>
+      cases hr : checkReturn Γ p.outs p.ret p.retWild with
+      | false => simp [hr]
+      | true =>
+        cases ht : pipeRetainOk Γ p.retain with
+        | false => simp [hr, ht]
+        | true => simp [hr, ht]
+    | cons a r =>
+      cases hr : checkReturn Γ p.outs p.ret p.retWild <;> simp [hr]
+
+/-- an input is reported unused exactly when it is declared and no binding of a
+call, no `disabled` modifier and no return binding refers to it (at any depth of
+a literal, under `split`, or through the expansion of a wildcard) -/
+theorem unused_input_iff (p : Pipeline) (x : Bytes) :
+    x ∈ unusedInputs p ↔ x ∈ p.ins.map Prod.fst ∧ x ∉ usedInputs p := by
+  simp [unusedInputs, List.mem_filter]
+
+/-- a reference `self.x…` anywhere inside a written binding of a call uses `x` -/
+theorem binding_uses_input (p : Pipeline) (c : CallStm) (k : Bytes) (b : Bind) (x : Bytes)
+    (hc : c ∈ p.calls) (hw : c.wild = none) (hb : (k, b) ∈ c.binds) (hx : x ∈ b.selfIds) :
+    x ∈ usedInputs p := by
+  simp only [usedInputs, List.mem_append, List.mem_flatMap]
+  refine Or.inl ⟨c, hc, Or.inl ?_⟩
+  simp only [usedByBinds, hw, allBinds, List.mem_append, List.mem_flatMap]
+  exact Or.inl ⟨(k, b), hb, hx⟩
+
+example :
+    let st : Callee := { name := cP, isStage := true, params := [(ka, .base .int)], outs := .nil }
+    let mk (e : Exp) : Pipeline := { name := kx, ins := [(ka, .base .int), (kb, .base .int)], outs := .nil, calls := [{ id := cP, callee := st, binds := [(ka, .plain e)], wild := none, mods := noMods }], ret := [], retWild := none, retain := [] }
+    unusedInputs (mk (.self ka [])) = [kb] ∧ validPipeline (mk (.self ka [])) = true ∧
+      validPipelineU (mk (.self ka [])) = false := by decide
+
+/-- exact acceptance condition of a top-level `call` statement -/
+theorem validTop_iff (c : CallStm) :
+    validTop c = true ↔
+      c.wild = none ∧ modsOk emptyEnv c.callee c.binds none c.mods = true ∧
+      (c.mods.usings ≠ [] → usingDisabled c.mods.usings = none ∧
+        effective c.mods.kwPreflight (usingVal 1 c.mods.usings) = false) ∧
+      validCall emptyEnv c.callee.params c.binds = true := by
+  simp only [validTop, checkTop, validCall]
+  cases hw : c.wild <;> cases hm : modsOk emptyEnv c.callee c.binds none c.mods <;>
+    cases hu : c.mods.usings <;>
+    cases hd : usingDisabled c.mods.usings <;>
+    cases hp : effective c.mods.kwPreflight (usingVal 1 c.mods.usings) <;> simp_all
+
+/-- outside a pipeline nothing resolves: a top-level call with a binding that is
+a reference (plain or split) is rejected -/
+theorem top_reference_rejected (c : CallStm) (x : Bytes) (e : Exp)
+    (he : ∃ id p, e = .self id p ∨ e = .call id p)
+    (hb : (x, Bind.plain e) ∈ c.binds ∨ (x, Bind.split e) ∈ c.binds) : validTop c = false := by
+  cases hv : validTop c with
+  | false => rfl
+  | true =>
+    have hc := ((validTop_iff c).mp hv).2.2.2
+    have hnone : ∀ e', refType emptyEnv e' = none := by
+      intro e'; cases e' <;> simp [refType, emptyEnv]
+    have hrej := unresolved_ref_rejected emptyEnv
+    rcases hb with hb | hb
+    · obtain ⟨t, _, hvb⟩ := checkCall_known emptyEnv c.callee.params c.binds hc x _ hb
+      simp only [validBind, Bool.or_eq_true] at hvb
+      rcases hvb with h | h
+      · rw [(hrej t e he (hnone e)).1] at h; cases h
+      · obtain ⟨id, p, rfl | rfl⟩ := he
+        · simp [defaultRewrite] at h
+        · cases p with
+          | nil => simp [defaultRewrite, hnone] at h
+          | cons o p => simp [defaultRewrite] at h
+    · obtain ⟨t, _, hvb⟩ := checkCall_known emptyEnv c.callee.params c.binds hc x _ hb
+      rw [(hrej t e he (hnone e)).2] at hvb; cases hvb
+
+/-- SOUNDNESS of the top-level call, FULL strength: no store and no hole
+hypothesis – every parameter of the called pipeline receives, through its one
+binding, only values that validate against its declared type. -/
+theorem top_call_sound (c : CallStm) (ρ : Store)
+    (hp : ∀ x t, c.callee.params.lookup x = some t → t.wf = true) (h : validTop c = true) :
+    ∀ x t, c.callee.params.lookup x = some t → ∃ b, c.binds.lookup x = some b ∧
+      (b.wf = true → ∃ vs, delivered emptyEnv ρ t b = some vs ∧ ∀ v ∈ vs, valid t (filter t v).1 = true) := by
+  have hc := ((validTop_iff c).mp h).2.2.2
+  have hρ : StoreOk emptyEnv ρ := ⟨by intro id t h; simp [emptyEnv] at h, by intro id s h; simp [emptyEnv] at h⟩
+  obtain ⟨bs, hbs, hall⟩ := call_sound_partial emptyEnv ρ c.callee.params c.binds none hρ hp
+    (by simpa [validCallW, checkCallW, allBinds, validCall] using hc)
+  simp only [allBinds, Option.some.injEq] at hbs
+  subst hbs
+  intro x t hx
+  obtain ⟨b, hl, hd⟩ := hall x t hx
+  exact ⟨b, hl, fun hw => hd hw (bindHoleFree_emptyEnv t b)⟩
+
+example :
+    let pl : Callee := { name := cP, isStage := false, params := [(ka, .base .float), (kb, tA)], outs := .nil }
+    let c (e : Exp) : CallStm := { id := cP, callee := pl, binds := [(ka, .plain (.int 1)), (kb, .plain e)], wild := none, mods := noMods }
+    validTop (c (.map false (.cons ka (.int 2) .nil))) = true ∧ validTop (c (.self kx [])) = false ∧
+      validTop { c .null with mods := { noMods with usings := [.pre true] } } = false ∧
+      validTop { c .null with wild := some .self } = false := by decide
 
 end Props.C07
